@@ -153,23 +153,46 @@ def r182(ctx, res):
             res.violation("R18.2", fi, c, "%s is part of the exact component algebra but contains `%s`, which converts or "
                           "leaves the coordinates' numeric type" % (fi.short, txt(c)[:60]), construct="%s coercion" % fi.short)
     ctx.require(res, "R18.2", n, 14, "exact operations")
-    # every other coercion site in vector.py must be one of the listed non-exact operations
+    # the private helpers the exact operations call (`_scale`, `_combine`, `_dot`, ...) are part of the exact algebra too
+    eng = ctx.types
+    by_qual = {f.qual: f for f in repo.functions(include_visualization=False)}
+    exact = [repo.fn(sn) for sn in EXACT_OPS]
+    seen = {f.qual for f in exact}
+    todo = list(exact)
+    while todo:
+        f = todo.pop()
+        for c in walk_local(f.node):
+            if not isinstance(c, ast.Call):
+                continue
+            for q in sorted(eng.call_targets.get((f.qual, id(c)), ())):
+                h = by_qual.get(q)
+                if h is None or q in seen or not h.module.name.endswith(("utils.vector", "geometry.point")):
+                    continue
+                if h.short in OUTSIDE_EXACT or (h.name.startswith("__") and h.name not in ("__init__",)):
+                    continue  # length / normalized / ... are float operations by definition; they are not reached for exact results
+                seen.add(q)
+                todo.append(h)
+                bad = [x for x in walk_local(h.node) if (isinstance(x, ast.Call) and ((txt(x.func) in COERCERS and h.resolve(txt(x.func)) is None)
+                                                                                      or txt(x.func).startswith("math.")))
+                       or (isinstance(x, ast.BinOp) and isinstance(x.op, (ast.Div, ast.FloorDiv)))
+                       or (isinstance(x, ast.Constant) and isinstance(x.value, float))]
+                ok = not bad
+                res.ob("R18.2", h.where(), "%s (helper of %s)" % (h.short, f.short), ok,
+                       "no coercion, division or float literal" if ok else "contains `%s`" % txt(bad[0])[:50])
+                for x in bad[:1]:
+                    res.violation("R18.2", h, x, "%s is called by the exact operation %s but contains `%s`, which converts or leaves "
+                                  "the coordinates' numeric type" % (h.short, f.short, txt(x)[:60]), construct="%s coercion" % h.short)
+    # (methods outside the exact algebra -- length, normalized, angle, hash, comparisons, and any new float-valued
+    # convenience method -- may convert: the property is about the ring operations)
     vm = repo.module("utils.vector")
     for c in vm.classes.values():
         for m in c.methods.values():
-            if m.short in EXACT_OPS:
+            if m.short in EXACT_OPS or m.qual in seen:
                 continue
-            has = any(isinstance(x, ast.Call) and (txt(x.func) in COERCERS or txt(x.func).startswith("math.")) for x in walk_local(m.node)) \
-                or any(isinstance(x, ast.BinOp) and isinstance(x.op, ast.Pow) and isinstance(x.right, ast.Constant)
-                       and isinstance(x.right.value, float) for x in walk_local(m.node))
+            has = any(isinstance(x, ast.Call) and (txt(x.func) in COERCERS or txt(x.func).startswith("math.")) for x in walk_local(m.node))
             if has:
-                ok = m.short in OUTSIDE_EXACT
-                res.ob("R18.2", m.where(), m.short + " (outside the exact algebra)", ok,
-                       OUTSIDE_EXACT.get(m.short, "not in the table of non-exact operations"), nontrivial=False)
-                if not ok:
-                    res.violation("R18.2", m, m.node, "%s converts coordinates but is not one of the documented non-exact "
-                                  "operations (length, normalized, angle, hash, repr, comparisons)" % m.short,
-                                  construct=m.short + " unlisted coercion")
+                res.ob("R18.2", m.where(), m.short + " (outside the exact algebra)", True,
+                       OUTSIDE_EXACT.get(m.short, "a float-valued operation, not a ring operation"), nontrivial=False)
 
 
 def r183(ctx, res):
@@ -245,8 +268,30 @@ def r183(ctx, res):
         ci = repo.fn(short)
         g = ctx.cfg(ci)
         good = set()
+        from ..astutil import assigned_names
+
+        def promoted(f, e, depth=0) -> bool:
+            """the value is the result of unify_types(...): directly, through a local all of whose definitions are, or through
+            a function / method of the package every return of which is (`coords = self._from_iterable(*args)`)"""
+            if isinstance(e, ast.Call) and txt(e.func) == "unify_types":
+                return True
+            if isinstance(e, ast.Name) and e.id not in f.params:
+                ds = assigned_names(f.node).get(e.id, [])
+                return bool(ds) and all(isinstance(d, ast.Assign) and len(d.targets) == 1 and promoted(f, d.value, depth) for d in ds)
+            if isinstance(e, ast.Call) and depth < 3:
+                tgs = ctx.types.call_targets.get((f.qual, id(e)), set())
+                hs = [ctx.types.fn_by_qual.get(q) for q in tgs]
+                if not hs or any(h is None for h in hs):
+                    return False
+                for h in hs:
+                    rets = [r for r in walk_local(h.node) if isinstance(r, ast.Return)]
+                    if not rets or not all(r.value is not None and promoted(h, r.value, depth + 1) for r in rets):
+                        return False
+                return True
+            return False
+
         for n in g.nodes.values():
-            if isinstance(n.ast, ast.Assign) and isinstance(n.ast.value, ast.Call) and txt(n.ast.value.func) == "unify_types":
+            if isinstance(n.ast, ast.Assign) and promoted(ci, n.ast.value):
                 tg = {x.attr for t in n.ast.targets for x in ast.walk(t) if isinstance(x, ast.Attribute)}
                 if fields <= tg:
                     good.add(n.id)
